@@ -46,3 +46,44 @@ Print Assumptions C14_clone.
 Theorem C14_v0_refuted : exists input, as_ref (from_bytes_v0 input) = UB /\ leaked_extra (from_bytes_v0 input) <> 0%nat.
 Proof. exact v0_refuted. Qed.
 Print Assumptions C14_v0_refuted.
+
+(* compares by content: two owned strings are == exactly when their texts (inputs up to the first NUL) are the same bytes, whatever followed the NUL *)
+Theorem C14_eq : forall i j, eq_cstring (from_str i) (from_str j) = Ok true <-> prefix_to_nul i = prefix_to_nul j.
+Proof. exact eq_iff_content. Qed.
+Print Assumptions C14_eq.
+
+(* hashes by content: the hashed key is the text itself, so equal strings hash equally and like the &str with the same content *)
+Theorem C14_hash : forall i, hash_key (from_str i) = Ok (prefix_to_nul i).
+Proof. exact hash_by_content. Qed.
+Print Assumptions C14_hash.
+
+(* the buffer holds exactly one NUL and it is the last byte *)
+Theorem C14_one_nul : forall input,
+  count_occ Z.eq_dec (bytes (from_str input)) 0 = 1%nat /\ last (bytes (from_str input)) 1 = 0.
+Proof. exact one_nul_last. Qed.
+Print Assumptions C14_one_nul.
+
+(* the text is a prefix of the input, cut at a NUL or at the end of the input: no conversion invents or reorders bytes *)
+Theorem C14_prefix : forall input, exists rest, input = prefix_to_nul input ++ rest /\ (rest = [] \/ exists r, rest = 0 :: r).
+Proof. exact prefix_is_prefix. Qed.
+Print Assumptions C14_prefix.
+
+(* a ReprCStr borrowed from a C string (text p without NUL, its terminator, then ANY further memory) reads back p and never depends on what
+   lies behind the terminator; memory without a terminator is an out-of-bounds scan (the caller's obligation, CStr guarantees it) *)
+Theorem C14_borrowed : forall p rest, Forall (fun x => x <> 0) p -> borrowed_as_ref (p ++ 0 :: rest) = Ok p.
+Proof. exact borrowed_reads_back. Qed.
+Print Assumptions C14_borrowed.
+Theorem C14_borrowed_needs_nul : forall p, Forall (fun x => x <> 0) p -> borrowed_as_ref p = UB.
+Proof. exact borrowed_unterminated. Qed.
+Print Assumptions C14_borrowed_needs_nul.
+
+(* Borrow<ReprCStr> of an owned string reads the same text as the owned string; rebuilding from the read-back text gives the same buffer *)
+Theorem C14_borrow_agrees : forall input, borrowed_as_ref (borrow_cstring (from_str input)) = as_ref (from_str input).
+Proof. exact borrow_agrees. Qed.
+Print Assumptions C14_borrow_agrees.
+Theorem C14_idem : forall input, from_str (prefix_to_nul input) = from_str input.
+Proof. exact from_readback_idem. Qed.
+Print Assumptions C14_idem.
+
+Example C14_eq_example : eq_cstring (from_str [97; 0; 98]) (from_str [97]) = Ok true /\ eq_cstring (from_str [97; 98]) (from_str [97]) = Ok false.
+Proof. split; reflexivity. Qed.
